@@ -37,7 +37,10 @@ inline int64_t cbv_clock(int64_t real_ms) {
     }
     if (step < 0) return real_ms;
     now += step;
-    if (cbv_sched_on()) std::fprintf(stderr, "CBV clock %lld\n", (long long)now);
+    if (cbv_sched_on()) {
+        std::fflush(stdout);
+        std::fprintf(stderr, "CBV clock %lld\n", (long long)now);
+    }
     return now;
 }
 
